@@ -4,6 +4,9 @@
 // (comment-only file, compiled only under the build tag "verif").
 package main
 
+// Every function under contract in this package also serves the properties that depend on the whole package.
+//@ package-props C01
+
 // The request text comes from -proto or from the file named by -proto_file, never both.
 //@ func protoRequestFromFlags
 //@   props C01 C12
